@@ -37,7 +37,10 @@ Definition req7 (code : Z) (arg : sx) : sx :=
       match vtt_cue_settings line with
       | None => SL [SI 0]
       | Some None => SL [SI 1]
-      | Some (Some st) => SL [SI 2; SS st; SS (vtt_timing_text (lit "00:01.000") (lit "00:02.000") (VRaw st))]
+      | Some (Some st) =>
+          (* and the model's re-reading of the line the writer prints for these settings *)
+          SL [SI 2; SS st; match vtt_cue_settings (vtt_timing_text (lit "00:01.000") (lit "00:02.000") (VRaw st)) with
+                           | Some (Some st') => SS st' | _ => SI 0 end]
       end
   | 1320, SL [c; s] =>
       match sx_cfg c, sx_nset s with
